@@ -339,36 +339,7 @@ def run(ctx):
     ok = len(sh) == 2 and {s[0] for s in sh} == {"origin", "size"} and sh[0][1] == sh[1][1] and "bus.data_width // 8" in sh[0][1]
     ctx.ob("A2", SOC, "SoCRegion.decoder", "origin and size converted bytes->words by the same shift", ok, "" if ok else f"{sh}", fd)
 
-    # ================= A2: check_regions_overlap / check_region_is_in
-    fo = m.method("SoCBusHandler", "check_regions_overlap")
-    attrs = sorted({n.attr for n in ast.walk(fo) if isinstance(n, ast.Attribute) and n.attr in ("size", "size_pow2")})
-    ok = attrs == ["size_pow2"]
-    ctx.ob("A2", SOC, "SoCBusHandler.check_regions_overlap", "extent attribute is size_pow2 (the decoded window)", ok,
-           "" if ok else f"overlap test reads {attrs}: regions that do not overlap by .size can still share decoded addresses", fo)
-    tests = [n for n in ast.walk(fo) if isinstance(n, ast.If) and isinstance(n.test, ast.Compare) and "origin" in norm(n.test)]
-    ok = len(tests) == 2
-    why = f"{len(tests)} origin comparisons"
-    if ok:
-        t0, t1 = norm(tests[0].test), norm(tests[1].test)
-        sw = t0.replace("r0", "\0").replace("r1", "r0").replace("\0", "r1")
-        ok = sw == t1 and ">=" in t0 and "r1.origin + r1.size_pow2" in t0 and t0.startswith("r0.origin >=")
-        ok = ok and all(len(t.body) == 1 and isinstance(t.body[0], ast.Continue) for t in tests)
-        why = f"{t0} / {t1}"
-    ctx.ob("A2", SOC, "SoCBusHandler.check_regions_overlap", "disjointness tests are mirror images, each adding the other extent",
-           ok, "" if ok else why, fo)
-    po = P.feasible_paths(fo)
-    ok = any(p.end == "return" and isinstance(p.end_node.value, ast.Tuple) for p in po) and \
-        any(p.end == "return" and norm(p.end_node.value) == "None" for p in po)
-    ctx.ob("A2", SOC, "SoCBusHandler.check_regions_overlap", "returns the pair on overlap, None otherwise", ok, "" if ok else "return shape changed", fo)
-    # pair loop covers all i<j
-    ok = any(isinstance(n, ast.For) and norm(n.iter) == "list(regions.keys())[i + 1:]" for n in ast.walk(fo)) and \
-        any(isinstance(n, ast.While) and norm(n.test) == "i < len(regions)" for n in ast.walk(fo))
-    ctx.ob("A2", SOC, "SoCBusHandler.check_regions_overlap", "all pairs i<j compared", ok, "" if ok else "pair iteration changed", fo)
-    fi = m.method("SoCBusHandler", "check_region_is_in")
-    cmps = [norm(n) for n in ast.walk(fi) if isinstance(n, ast.Compare)]
-    ok = "region.origin >= container.origin" in cmps and \
-        "region.origin + region.size <= container.origin + container.size" in cmps
-    ctx.ob("A2", SOC, "SoCBusHandler.check_region_is_in", "containment compares both ends", ok, "" if ok else f"{cmps}", fi)
+    overlap_window(ctx, "A2")
 
     # ================= A4: ConstraintManager
     g = ctx.mod(GP)
@@ -407,12 +378,12 @@ def run(ctx):
         ctx.ob("A4", GP, f"ConstraintManager.{mname}", "reads only self.matched", ok, "" if ok else f"reads {rd}", fm)
     # _lookup: name and number must both match
     fl = g.func("_lookup")
-    cm = [norm(n) for n in ast.walk(fl) if isinstance(n, ast.Compare)]
-    ok = any("resource[0] == name" in c for c in cm) and any("resource[1] == number" in c for c in cm)
-    ctx.ob("A4", GP, "_lookup", "matches on name and number", ok, "" if ok else f"{cm}", fl)
+    # (what matches is decided by the decision table of _lookup_wildcard)
     pl = P.feasible_paths(fl)
     ok = all(p.end != "fall" for p in pl)
     ctx.ob("A4", GP, "_lookup", "not found raises or returns None explicitly", ok, "" if ok else "falls off the end", fl)
+
+    _lookup_wildcard(ctx)
 
     # ================= A5: names
     for cls, meth, test, reg in (("SoCBusHandler", "add_master", "name in self.masters.keys()", "self.masters"),
@@ -442,6 +413,108 @@ def run(ctx):
     ps = P.feasible_paths(fn)
     ok = any(p.end == "raise" and any(norm(t) == "hasattr(self, name)" and pol for t, pol in p.tests_before(len(p.ev))) for p in ps)
     ctx.ob("A5", SOC, "SoC.check_if_exists", "existing submodule name raises", ok, "" if ok else "no raise on hasattr(self, name)", fn)
+
+
+def overlap_window(ctx, rid):
+    """The overlap test compares the windows the decoders really match (size_pow2), symmetrically, over all pairs; containment
+    compares both ends (shared with C14: two published regions whose decode windows intersect answer at the same address)."""
+    m = ctx.mod(SOC)
+    # ================= A2: check_regions_overlap / check_region_is_in
+    fo = m.method("SoCBusHandler", "check_regions_overlap")
+    attrs = sorted({n.attr for n in ast.walk(fo) if isinstance(n, ast.Attribute) and n.attr in ("size", "size_pow2")})
+    ok = attrs == ["size_pow2"]
+    ctx.ob(rid, SOC, "SoCBusHandler.check_regions_overlap", "extent attribute is size_pow2 (the decoded window)", ok,
+           "" if ok else f"overlap test reads {attrs}: regions that do not overlap by .size can still share decoded addresses", fo)
+    tests = [n for n in ast.walk(fo) if isinstance(n, ast.If) and isinstance(n.test, ast.Compare) and "origin" in norm(n.test)]
+    ok = len(tests) == 2
+    why = f"{len(tests)} origin comparisons"
+    if ok:
+        t0, t1 = norm(tests[0].test), norm(tests[1].test)
+        sw = t0.replace("r0", "\0").replace("r1", "r0").replace("\0", "r1")
+        # canonical orientation: `r0.origin >= r1.origin + r1.size_pow2` is read as `r1.origin + r1.size_pow2 <= r0.origin`
+        ok = sw == t1 and t0 == "r1.origin + r1.size_pow2 <= r0.origin"
+        ok = ok and all(len(t.body) == 1 and isinstance(t.body[0], ast.Continue) for t in tests)
+        why = f"{t0} / {t1}"
+    ctx.ob(rid, SOC, "SoCBusHandler.check_regions_overlap", "disjointness tests are mirror images, each adding the other extent",
+           ok, "" if ok else why, fo)
+    po = P.feasible_paths(fo)
+    ok = any(p.end == "return" and isinstance(p.end_node.value, ast.Tuple) for p in po) and \
+        any(p.end == "return" and norm(p.end_node.value) == "None" for p in po)
+    ctx.ob(rid, SOC, "SoCBusHandler.check_regions_overlap", "returns the pair on overlap, None otherwise", ok, "" if ok else "return shape changed", fo)
+    # pair loop covers all i<j
+    ok = any(isinstance(n, ast.For) and norm(n.iter) == "list(regions.keys())[i + 1:]" for n in ast.walk(fo)) and \
+        any(isinstance(n, ast.While) and norm(n.test) == "i < len(regions)" for n in ast.walk(fo))
+    ctx.ob(rid, SOC, "SoCBusHandler.check_regions_overlap", "all pairs i<j compared", ok, "" if ok else "pair iteration changed", fo)
+    fi = m.method("SoCBusHandler", "check_region_is_in")
+    cmps = [norm(n) for n in ast.walk(fi) if isinstance(n, ast.Compare)]
+    ok = "container.origin <= region.origin" in cmps and \
+        "region.origin + region.size <= container.origin + container.size" in cmps
+    ctx.ob(rid, SOC, "SoCBusHandler.check_region_is_in", "containment compares both ends", ok, "" if ok else f"{cmps}", fi)
+
+
+
+def _pyeval(e, env):
+    """Value of a small side-effect free expression (names, constant subscripts, == != is is-not, and/or/not)."""
+    if isinstance(e, ast.Constant):
+        return e.value
+    if isinstance(e, ast.Name):
+        return env[e.id]
+    if isinstance(e, ast.Subscript) and isinstance(e.slice, ast.Constant):
+        return _pyeval(e.value, env)[e.slice.value]
+    if isinstance(e, ast.UnaryOp) and isinstance(e.op, ast.Not):
+        return not _pyeval(e.operand, env)
+    if isinstance(e, ast.BoolOp):
+        v = None
+        for x in e.values:
+            v = _pyeval(x, env)
+            if isinstance(e.op, ast.And) and not v:
+                return v
+            if isinstance(e.op, ast.Or) and v:
+                return v
+        return v
+    if isinstance(e, ast.Compare) and len(e.ops) == 1:
+        a, b, op = _pyeval(e.left, env), _pyeval(e.comparators[0], env), e.ops[0]
+        if isinstance(op, ast.Eq):
+            return a == b
+        if isinstance(op, ast.NotEq):
+            return a != b
+        if isinstance(op, ast.Is):
+            return a is b
+        if isinstance(op, ast.IsNot):
+            return a is not b
+    raise ValueError(norm(e))
+
+
+def _lookup_wildcard(ctx):
+    """generic_platform._lookup: a resource matches iff the names are equal and the number is the wildcard None or equal; number 0
+    is a number like any other (decision table over name equality x requested number in {None, 0, 1} x resource number in {0, 1})."""
+    m = ctx.mod(GP)
+    fn = m.func("_lookup")
+    ctx.analysed["functions"].add(f"{GP}::_lookup")
+    a = [x.arg for x in fn.args.args]
+    ctx.need(len(a) >= 3, "_lookup(description, name, number, ...): signature changed")
+    loops = [n for n in fn.body if isinstance(n, ast.For) and isinstance(n.target, ast.Name) and norm(n.iter) == a[0]]
+    ctx.need(len(loops) == 1, "_lookup: loop over the description not found")
+    ifs = [n for n in loops[0].body if isinstance(n, ast.If) and any(isinstance(x, ast.Return) and norm(x.value) == loops[0].target.id for x in n.body)]
+    ctx.need(len(ifs) == 1, "_lookup: `if <match>: return resource` not found")
+    bad = None
+    n_ev = 0
+    try:
+        for rname in ("led", "btn"):
+            for rnum in (0, 1):
+                for number in (None, 0, 1):
+                    got = bool(_pyeval(ifs[0].test, {loops[0].target.id: (rname, rnum), a[1]: "led", a[2]: number}))
+                    want = rname == "led" and (number is None or rnum == number)
+                    n_ev += 1
+                    if got != want and bad is None:
+                        bad = (rname, rnum, number, got)
+    except (KeyError, ValueError, IndexError, TypeError) as ex:
+        ctx.need(False, f"_lookup: match test `{norm(ifs[0].test)}` not understood ({ex})")
+    ctx.analysed["paths"] += n_ev
+    ctx.ob("A4", GP, "_lookup", "match = same name and (number is None or same number); 0 is a number, not the wildcard", bad is None,
+           "" if bad is None else f"`{norm(ifs[0].test)}` is {bad[3]} for resource ({bad[0]!r}, {bad[1]}) requested as ('led', {bad[2]}): an explicit "
+                                  f"request for number {bad[2]} is served with another resource of that name -- two clients share one IO name, the "
+                                  f"rightful request is refused later", ifs[0])
 
 
 def _none_test(e, var):
